@@ -183,6 +183,29 @@ def r10_4(prog: Program, rep):
     src = norm(lk.node, 100000)
     rep.ob("R10.4", OS_PY, lk.qual, "_lookup_in_packs evicts a vanished pack, rescans and retries",
            "except PackFileDisappeared" in src and "_evict_pack" in src and "_update_pack_cache()" in src and "continue" in src, "", lk.node.lineno)
+    # after a rescan that may have brought new packs, the lookup is retried before it gives up
+    g = cfg_of(prog, lk)
+    raises = [i for i, nd in g.nodes.items() if nd.kind == "stmt" and isinstance(nd.ast, ast.Raise) and "KeyError" in norm(nd.ast)]
+    heads = {i for i, nd in g.nodes.items() if nd.kind in ("for_init",) and "_pack_cache" in norm(nd.ast.iter)}
+    if not raises or not heads:
+        raise AnalysisError("_lookup_in_packs: final raise or the loop over cached packs not found")
+    for i, nd in g.nodes.items():
+        calls = [c for c in node_calls(nd) if callee_name(c) == "_update_pack_cache"]
+        if not calls:
+            continue
+        if nd.kind == "test":
+            starts = [b for b, l in g.succ[i] if l == "true"]        # new packs were found
+            what = "new packs found by the rescan are searched before giving up"
+        else:
+            starts = [b for b, l in g.succ[i] if l not in EXC_LABELS]
+            what = "after a pack disappeared and the directory was rescanned the search is retried"
+        # running out of the bounded number of attempts is a legitimate way to give up
+        attempts = {j for j, x in g.nodes.items() if x.kind == "for_iter" and "range(" in norm(x.ast.iter)}
+        bad = must_pass(g, raises, heads, start=starts, edge_ok=lambda a, b, l: not (a in attempts and l == "false"))
+        rep.ob("R10.4", OS_PY, lk.qual, what, not bad,
+               "the pack directory is rescanned but the lookup falls through to `raise KeyError` without searching the packs "
+               "again: the pack that replaced the vanished one is never consulted", nd.line,
+               lines(g, path(g, starts, bad[0], avoid=heads)) if bad else [])
     if n < 6:
         raise AnalysisError(f"expected >= 6 pack dereference sites in reader methods, found {n}")
 
